@@ -575,10 +575,36 @@ class ArrSet:
         return z3.Exists(q, z3.And(rng, notin))
 
 
+class PSet:
+    """A mutable Python set of concrete hashable members (created empty by `set()`, grown by
+    update/add with concrete members)."""
+
+    def __init__(self, items=()):
+        self.items = set(items)
+
+    def __iter__(self):
+        return iter(sorted(self.items, key=repr))
+
+    def __len__(self):
+        return len(self.items)
+
+
+def _pset_members(I, it):
+    vals = list(it.items.keys()) if isinstance(it, PDict) else I.iter_concrete(it)
+    if not all(I.is_concrete(x) for x in vals):
+        raise Unsupported("set update with symbolic members")
+    return [I.lower(x) if hasattr(I, "lower") else x for x in vals]
+
+
+METHODS[(PSet, "update")] = lambda I, self, *its: [self.items.update(_pset_members(I, it)) for it in its] and None
+METHODS[(PSet, "add")] = lambda I, self, x: self.items.add(_pset_members(I, [x])[0])
+METHODS[(PSet, "discard")] = lambda I, self, x: self.items.discard(_pset_members(I, [x])[0])
+
+
 @model(builtins.set, builtins.frozenset)
 def m_set(I, args, kw):
     if not args:
-        return frozenset()
+        return PSet()
     if isinstance(args[0], Arr) and args[0].ndim >= 1 and not isinstance(args[0].shape[0], int):
         return ArrSet(args[0])
     items = I.iter_concrete(args[0])
@@ -806,8 +832,12 @@ def m_deepcopy(I, args, kw):
 
 @model(_weakref.ref)
 def m_weakref(I, args, kw):
-    # a freshly created reference to a value the caller holds is alive
-    return WeakRef(args[0], True)
+    # a freshly created reference to a value the caller holds is alive; an abstract collaborator
+    # that carries its own reference term is referred to by that term
+    tgt = args[0]
+    if hasattr(tgt, "attrs") and isinstance(getattr(tgt, "attrs", None), dict) and "__ref__" in tgt.attrs:
+        tgt = tgt.attrs["__ref__"]
+    return WeakRef(tgt, True)
 
 
 CLASS_MODELS[_weakref.ref] = m_weakref
